@@ -127,6 +127,7 @@ type NodeOpts struct {
 	ID      *m.Address // nil = mine a fresh routable identity
 	WithTun bool       // give the node a tun stand-in and enable traffic handling
 	Prefix  netip.Prefix
+	Store   storage.Storage // router storage of the node (nil = the in-memory storage of /repo)
 }
 
 // NewNode assembles a router stack.
@@ -149,6 +150,9 @@ func (w *World) NewNode(name string, o NodeOpts) *Node {
 	n.Builder = frame.NewFrameBuilder()
 	n.Builder.SetFrameMargins(peering.FrameOffset, peering.FrameOverhead)
 	n.Store = storage.NewMemStorage()
+	if o.Store != nil {
+		n.Store = o.Store
+	}
 	n.St = state.New(n, n.Store)
 	if o.WithTun {
 		n.Tun = &tun.Device{
@@ -484,6 +488,83 @@ func (w *World) DeliverConcurrent(fls []*Flight) {
 		}(f)
 	}
 	wg.Wait()
+}
+
+// DeliverConcurrentStaggered is DeliverConcurrent with arrival moments: every frame passes the switch handler, then
+// the real router worker that is given frame i is started offsets[i] after a common starting moment (a missing
+// offset counts as 0), so that frames are handled at the same time but not from the same instant. It returns one
+// Handled per frame the switch escalated, in the order of fls. With several workers at work any worker takes any
+// frame of the batch, so the Logs of an entry may belong to another frame of the same batch: use them for notes, not
+// for verdicts.
+func (w *World) DeliverConcurrentStaggered(fls []*Flight, offsets []time.Duration) []Handled {
+	if len(fls) == 0 {
+		return nil
+	}
+	to := fls[0].To
+	type job struct {
+		f   frame.Frame
+		off time.Duration
+	}
+	var jobs []job
+	for i, fl := range fls {
+		if fl.To != to {
+			panic("DeliverConcurrentStaggered: flights for different receivers")
+		}
+		recvLink := to.links[fl.From.ID.IP]
+		if recvLink == nil || recvLink.closing {
+			continue
+		}
+		n := len(fl.Data)
+		ps := to.Builder.GetPooledSlice(peering.FrameOffset + n + peering.FrameOverhead)
+		if ps == nil {
+			continue
+		}
+		copy(ps[peering.FrameOffset:], fl.Data)
+		f, err := to.Builder.ParseFrame(ps[peering.FrameOffset:peering.FrameOffset+n], ps[:cap(ps)], peering.FrameOffset)
+		if err != nil {
+			continue
+		}
+		f.SetRecvLink(recvLink)
+		if panicked, pv := catch(func() { _ = to.Sw.VerifHandleFrame(f) }); panicked {
+			w.notePanic(fmt.Sprintf("switch of %s: %v", to.Name, pv))
+		}
+		var off time.Duration
+		if i < len(offsets) {
+			off = offsets[i]
+		}
+		for more := true; more; {
+			select {
+			case up := <-to.swUp:
+				jobs = append(jobs, job{up, off})
+			default:
+				more = false
+			}
+		}
+	}
+	out := make([]Handled, len(jobs))
+	var wg sync.WaitGroup
+	start := time.Now().Add(300 * time.Microsecond)
+	for i, j := range jobs {
+		wg.Add(1)
+		go func(i int, j job) {
+			defer wg.Done()
+			h := Handled{Src: j.f.SrcIP(), Dst: j.f.DstIP(), Type: j.f.MessageType()}
+			target := start.Add(j.off)
+			if d := time.Until(target) - 100*time.Microsecond; d > 0 {
+				time.Sleep(d)
+			}
+			for time.Now().Before(target) { //nolint:revive // the last moments are waited out busily: sleeping is too coarse
+			}
+			h.Err, h.Logs = to.runRouterWorker(j.f)
+			if h.Err != nil && errors.Is(h.Err, mgr.ErrWorkerPanic) {
+				h.Panic = true
+				w.notePanic(fmt.Sprintf("router worker of %s: %v", to.Name, h.Err))
+			}
+			out[i] = h
+		}(i, j)
+	}
+	wg.Wait()
+	return out
 }
 
 // Inject runs the switch handler and then the router worker on a parsed frame.
